@@ -31,6 +31,7 @@ type Case struct {
 	SinkDelayUs  int     `json:"sink_delay_us"`
 	Yield        []int   `json:"yield"`               // per producer: 0 none, 1 Gosched every row, 2 short sleep every 64 rows
 	HookSeed     uint64  `json:"hook_seed,omitempty"` // seed of the engine's build-tag-guarded perturbation points (0 = off)
+	Storm        bool    `json:"storm,omitempty"`     // planted: hundreds of one-slot expansions under several producers
 }
 
 func genCase(t *rapid.T) Case {
@@ -56,6 +57,39 @@ func genCase(t *rapid.T) Case {
 		c.Yield = append(c.Yield, rapid.IntRange(0, 2).Draw(t, "yield"))
 	}
 	c.HookSeed = hookSeed(t)
+	// planted expansion storm: a tiny buffer that grows one slot at a time up to a high ceiling (hundreds of
+	// migrations per run), several unpaced producers, a consumer that keeps up, schedule perturbation on
+	if rapid.IntRange(0, 3).Draw(t, "storm") == 0 {
+		c.Strategy = "expand"
+		c.Storm = true
+		c.Producers = rapid.IntRange(2, 8).Draw(t, "stormproducers")
+		c.PerProducer = rapid.SampledFrom([]int{1000, 2000}).Draw(t, "stormper")
+		c.Buffer = rapid.SampledFrom([]int{2, 3, 8}).Draw(t, "stormbuffer")
+		c.Growth, c.MinInc = 1.1, rapid.SampledFrom([]int{1, 1, 2}).Draw(t, "storminc")
+		c.Ceiling = rapid.SampledFrom([]int{256, 1024}).Draw(t, "stormceiling")
+		c.Threshold = rapid.SampledFrom([]float64{0.5, 0.9, 1}).Draw(t, "stormthreshold")
+		c.SinkDelayUs = rapid.SampledFrom([]int{0, 5}).Draw(t, "stormdelay")
+		c.Yield = nil
+		for i := 0; i < c.Producers; i++ {
+			c.Yield = append(c.Yield, rapid.IntRange(0, 1).Draw(t, "stormyield"))
+		}
+		// second profile: few paced producers and a larger buffer that expands when half full, so that every
+		// migration moves many rows while the consumer sits between two receives
+		if rapid.Bool().Draw(t, "stormpaced") {
+			c.Producers = rapid.IntRange(1, 3).Draw(t, "pacedproducers")
+			c.Buffer = rapid.SampledFrom([]int{16, 64}).Draw(t, "pacedbuffer")
+			c.Threshold = rapid.SampledFrom([]float64{0.1, 0.5}).Draw(t, "pacedthreshold")
+			c.Ceiling = 1024
+			c.SinkDelayUs = 0
+			c.Yield = nil
+			for i := 0; i < c.Producers; i++ {
+				c.Yield = append(c.Yield, rapid.IntRange(1, 2).Draw(t, "pacedyield"))
+			}
+		}
+		if c.HookSeed == 0 {
+			c.HookSeed = uint64(rapid.IntRange(1, 1<<30).Draw(t, "stormhookseed"))
+		}
+	}
 	return c
 }
 
@@ -221,6 +255,9 @@ func runCase(c Case) (res pbt.Result) {
 	}
 	expanded := maxCap > int64(c.Buffer)
 	res.Class("strategy:" + c.Strategy)
+	if c.Storm {
+		res.Class("expansion-storm")
+	}
 	if expanded {
 		res.Class("expanded")
 	}
